@@ -189,11 +189,16 @@ def run(ctx):
     settings = {tuple(sorted(c["flags"].items())) for c in genum}
     ctx.cov.update({
         "evaluations": len(cases),
-        "distinct_nontrivial": nt,
+        "distinct_nontrivial": vlib.distinct_count(
+            [[c["tool"], c.get("label"), c.get("flags"), c["spec"].get("genum_opts", {}).get("parsableByTraits"),
+              c["spec"].get("gerror", {}).get("skipConvertGen")] for c in cases if nontrivial(c)]),
+        "nontrivial_counted_in_coq": nt,
+        "type_refs_compared": sum(len(c.get("type_refs") or []) for c in cases),
         "rule": "one case = one package (definition + go:generate options) run through the real CLI, gofmt -l and "
                 "go build with interface assertions; non-trivial = some option differs from its default, or a "
                 "parsable trait is requested, or the definition has a trait of basic kind / a recorded shape "
-                "(counted inside Coq by gb_nontrivial)",
+                "(gb_nontrivial, counted inside Coq as nontrivial_counted_in_coq); distinct by (tool, definition, "
+                "flags, parsable list)",
         "genum_settings_covered": len(settings),
         "exhaustive": (not quick),
         "exhaustive_note": "all 32 json/yaml/text/caseInsensitive/disableTraits settings are covered in both tiers; "
@@ -213,6 +218,18 @@ def run(ctx):
     })
     ctx.log("farm: %d packages (%d genum settings), %d disagreement(s) in %d problem group(s)" % (
         len(cases), len(settings), len(bad), len(order)))
+
+
+def nontrivial(c):
+    """python mirror of GenBuildJudge.gb_nontrivial (the Coq count is reported next to it)"""
+    f = c.get("flags", {})
+    if c["tool"] == "genum":
+        return (not (f.get("GenJSON") and f.get("GenYAML") and f.get("GenText")) or f.get("CaseInsensitive")
+                or f.get("DisableTraits") or c.get("parsable_some")
+                or len(c.get("trait_kinds", [])) + len(c.get("shapes", [])) > 0)
+    if c["tool"] == "gerror":
+        return bool(f.get("SkipConvertGen")) or len(c.get("shapes", [])) > 0
+    return len(c.get("shapes", [])) > 0
 
 
 def hist(it):
